@@ -32,6 +32,76 @@ def G(name, *edits):
 
 
 VARIANTS = [
+    # ------------------------------------------------------------------ round 4 (second batch)
+    B("C04 revert F48: exponent text expanded without a digit bound", "C04", "R04j",
+      (TRANS, """        if self.MAX_INT_DIGITS and data.is_finite() and data.adjusted() >= self.MAX_INT_DIGITS:
+            raise TypeError(f'number exceeds the limit of {self.MAX_INT_DIGITS} integer digits')
+
+""", "")),
+    B("C09 enter() reuses the layer under an equal route", "C09", "R10g",
+      (OPT, """        return self.__class__(
+            context=self,""", """        if options is None and route is not None and route == self.route:
+            return self
+        return self.__class__(
+            context=self,""")),
+    B("C10 options equal to the default are not recorded", "C10", "R10h",
+      (OPT, """                # if getattr(self, key) == val:
+                #     continue
+""", """                if getattr(Options, key) == val:
+                    continue
+""")),
+    B("C02 validators only rebuilt when the class declares a constraint", "C02", "R02f",
+      (RULE, "        cls.__validators__ = cls.constraints_cls(cls).generate_validators()\n        cls._validate_contains()",
+       "        if not cls.__validators__ or any(key in cls.__dict__ for key in cls.__constraints__):\n"
+       "            cls.__validators__ = cls.constraints_cls(cls).generate_validators()\n        cls._validate_contains()")),
+    B("C16 combinator types compare structurally", "C16", "R16g",
+      (RULE, """    @property
+    def args(cls):
+        return cls.__dict__.get("__args__", [])""", """    def __eq__(cls, other):
+        return isinstance(other, LogicalType) and cls.combinator and cls.combinator == other.combinator \
+            and list(cls.args) == list(other.args) or cls is other
+
+    def __hash__(cls):
+        return hash((cls.combinator, tuple(cls.args))) if cls.combinator else id(cls)
+
+    @property
+    def args(cls):
+        return cls.__dict__.get("__args__", [])""")),
+    B("C18 nested contexts merge the caller's options", "C18", "R18i",
+      (OPT, """            if not self.override and context.options.override:
+                options = context.options
+                # override""", """            if not self.override and context.options.override:
+                options = context.options
+                # override
+            elif not self.override:
+                options = self & context.options""")),
+    B("C11 input error policy taken from the getter's Field", "C11", "R11g",
+      (FIELD, "        self.on_error = self.field.on_error",
+       "        self.on_error = self.output_field.on_error if self.output_field else self.field.on_error")),
+    B("C10 oversized input returns an empty result after the recorded error", "C10", "R10i",
+      (BASE, """                        max_params=options.max_params, params_num=len(data)
+                    )
+                )
+""", """                        max_params=options.max_params, params_num=len(data)
+                    )
+                )
+                return {}
+""")),
+    G("benign C18: override test folded into one condition",
+      (OPT, """        if context:
+            if not self.override and context.options.override:
+                options = context.options
+                # override""", """        if context and not self.override and context.options.override:
+            options = context.options
+            # override""")),
+    G("benign C10: record loop with the skip conditions merged",
+      (OPT, """            if unprovided(val):
+                continue
+            if key.startswith('_'):
+                continue
+            if hasattr(self, key):""", """            if unprovided(val) or key.startswith('_'):
+                continue
+            if hasattr(self, key):""")),
     # ------------------------------------------------------------------ round 4: R01e, R04i
     B("C01 revert F45: literal returned for an int subclass", "C01", "R01e",
       (TRANS, "                    return t(1)", "                    return 1")),
@@ -1454,10 +1524,10 @@ VARIANTS = [
             if data.as_tuple().exponent:
                 raise TypeError
 
-        return t(data)""", """        if self.no_data_loss and (not data.is_finite() or data.as_tuple().exponent):
+        if self.MAX_INT_DIGITS""", """        if self.no_data_loss and (not data.is_finite() or data.as_tuple().exponent):
             raise TypeError
 
-        return t(data)""")),
+        if self.MAX_INT_DIGITS""")),
     G("benign Schema.copy: explicit dict() of the storage",
       (SCHEMA, "        obj.__dict__ = dict(self.__dict__)", "        obj.__dict__ = {**self.__dict__}")),
     B("C04 revert F36: contains iterates the input outside a try", "C04", "R04h",
